@@ -127,7 +127,7 @@ Ltac px_cbv extra :=
      truthy val_is val_eqb aget aset const_val bind_params bind_params_aux fextra fparams fbody
      forallb existsb option_map String.eqb Ascii.eqb Bool.eqb strmem
      before_dot append
-     fst snd List.length Nat.eqb exn module_dict negb andb orb hset nr
+     fst snd List.length Nat.eqb exn module_dict negb andb orb nr
      nth_error Z.to_nat Z.ltb Z.eqb Z.compare Pos.compare Pos.compare_cont Pos.to_nat Pos.iter_op Nat.add].
 
 Ltac px_cbv_nois extra :=
@@ -137,5 +137,5 @@ Ltac px_cbv_nois extra :=
      truthy val_eqb aget aset const_val bind_params bind_params_aux fextra fparams fbody
      forallb existsb option_map String.eqb Ascii.eqb Bool.eqb strmem
      before_dot append
-     fst snd List.length Nat.eqb exn module_dict negb andb orb hset nr
+     fst snd List.length Nat.eqb exn module_dict negb andb orb nr
      nth_error Z.to_nat Z.ltb Z.eqb Z.compare Pos.compare Pos.compare_cont Pos.to_nat Pos.iter_op Nat.add].
